@@ -16,8 +16,9 @@ VARIABLES appQ,       \* application messages written (or being written) and not
           marked,     \* the marker datagram was read: silence from here on
           peerGone,   \* TCP: time (ms) the peer closed (-1: not)
           lastQ,      \* whether the SendSet in progress queued a message
+          seqLog,     \* values the sequence counter has held since the value the last refresh datagram carried
           proto, l
-vars == << exvars, appQ, refreshed, firstMs, closeMs, marked, peerGone, lastQ, proto, l >>
+vars == << exvars, appQ, refreshed, firstMs, closeMs, marked, peerGone, lastQ, seqLog, proto, l >>
 ev == Log[l]
 IsEvent(e) == l <= Len(Log) /\ Log[l].e = e /\ l' = l + 1
 
@@ -25,10 +26,10 @@ CheckSlackMs == 600      \* >= 10 x the configured check interval (50 ms)
 RefreshMs == 1000
 
 Init == ExInit(<<0, 0>>, <<0, 0>>) /\ appQ = << >> /\ refreshed = EmptyFn /\ firstMs = EmptyFn /\ closeMs = -1
-        /\ marked = FALSE /\ peerGone = -1 /\ lastQ = FALSE /\ proto = "udp" /\ l = 1
+        /\ marked = FALSE /\ peerGone = -1 /\ lastQ = FALSE /\ seqLog = << <<0, 0>> >> /\ proto = "udp" /\ l = 1
 TReset == /\ IsEvent("Reset")
           /\ tmpl' = EmptyFn /\ seq' = <<0, 0>> /\ dom' = ev.dom /\ okRecs' = <<0, 0>> /\ failAdv' = 0 /\ nmsg' = 0 /\ open' = TRUE /\ nextTid' = 255 /\ jsonMode' = FALSE
-          /\ appQ' = << >> /\ refreshed' = EmptyFn /\ firstMs' = EmptyFn /\ closeMs' = -1 /\ marked' = FALSE /\ peerGone' = -1 /\ lastQ' = FALSE
+          /\ appQ' = << >> /\ refreshed' = EmptyFn /\ firstMs' = EmptyFn /\ closeMs' = -1 /\ marked' = FALSE /\ peerGone' = -1 /\ lastQ' = FALSE /\ seqLog' = << <<0, 0>> >>
           /\ proto' = ev.proto
 
 Bump(f, k, v) == [x \in DOMAIN f \cup {k} |-> IF x = k THEN v ELSE f[x]]
@@ -43,6 +44,7 @@ TSendBegin ==
                           THEN Bump(firstMs, s.recs[1].tid, ev.ms) ELSE firstMs
           /\ lastQ' = TRUE
        \/ /\ (SendDataInsane(s) \/ SendTemplateTooLong(s)) /\ UNCHANGED << appQ, firstMs >> /\ lastQ' = FALSE
+  /\ seqLog' = IF seq' # seq THEN Append(seqLog, seq') ELSE seqLog
   /\ UNCHANGED << refreshed, closeMs, marked, peerGone, proto >>
 
 \* SendSet returned.  ok: the byte count is the message length.  err: nothing was written for it.
@@ -53,30 +55,38 @@ TSendEnd ==
             /\ (lastQ => (closeMs >= 0 \/ peerGone >= 0))          \* a valid send fails only around a close
        ELSE /\ lastQ /\ UNCHANGED appQ
             /\ ((proto = "tcp" /\ peerGone >= 0) => ev.ms0 - peerGone < CheckSlackMs)      \* TCP: close noticed within the check interval
-  /\ UNCHANGED << exvars, refreshed, firstMs, closeMs, marked, peerGone, proto, lastQ >>
+  /\ UNCHANGED << exvars, refreshed, firstMs, closeMs, marked, peerGone, proto, lastQ, seqLog >>
 
 TimeOK(bytes) == \E t \in (ev.sec - 3)..ev.sec : SubSeq(bytes, 5, 8) = BE4(t)
-SeqCandidates == {seq} \cup { appQ[i].seq : i \in DOMAIN appQ } \cup { appQ[i].before : i \in DOMAIN appQ }
+\* The refresher reads the counter without a lock and writes later: a refresh datagram carries a value the
+\* counter held at some moment since the value the previous refresh datagram carried (its reads are ordered).
+SeqIdx(v) == { i \in DOMAIN seqLog : seqLog[i] = v }
+MinOf(S) == CHOOSE i \in S : \A j \in S : i <= j
 
 TRecv ==
   /\ IsEvent("Recv") /\ ~marked
   /\ TimeOK(ev.bytes)
-  /\ \/ /\ appQ # << >>                                                  \* the next application message, whole
-        /\ ev.bytes = EncMessage(U16(ev.bytes, 5) * 65536 + U16(ev.bytes, 7), Head(appQ).seq, dom, SetBytes(Head(appQ).set))
-        /\ appQ' = Tail(appQ) /\ UNCHANGED refreshed
-     \/ \E tid \in DOMAIN tmpl :                                         \* a refresh of a template sent so far, whole
-        /\ ToLimbs(ev.bytes, 9) \in SeqCandidates
-        /\ ev.bytes = EncMessage(U16(ev.bytes, 5) * 65536 + U16(ev.bytes, 7), ToLimbs(ev.bytes, 9), dom,
-                                 EncTemplateSet(tid, tmpl[tid].fields))
-        /\ refreshed' = Bump(refreshed, tid, (IF tid \in DOMAIN refreshed THEN refreshed[tid] ELSE 0) + 1)
-        /\ UNCHANGED appQ
+  /\ IF appQ # << >> /\ ev.bytes = EncMessage(U16(ev.bytes, 5) * 65536 + U16(ev.bytes, 7), Head(appQ).seq, dom, SetBytes(Head(appQ).set))
+       THEN \* the next application message, whole.  (A refresh with exactly these bytes written just before it is
+            \* indistinguishable; taking the datagram as the application's leaves the later state the same.)
+            appQ' = Tail(appQ) /\ UNCHANGED << refreshed, seqLog >>
+       ELSE LET tid == U16(ev.bytes, 21)                                   \* a refresh of a template sent so far, whole
+                sq == ToLimbs(ev.bytes, 9) IN
+            /\ Len(ev.bytes) >= 24 /\ U16(ev.bytes, 17) = TemplateSetId
+            /\ tid \in DOMAIN tmpl
+            /\ SeqIdx(sq) # {}
+            /\ ev.bytes = EncMessage(U16(ev.bytes, 5) * 65536 + U16(ev.bytes, 7), sq, dom,
+                                     EncTemplateSet(tid, tmpl[tid].fields))
+            /\ refreshed' = Bump(refreshed, tid, (IF tid \in DOMAIN refreshed THEN refreshed[tid] ELSE 0) + 1)
+            /\ seqLog' = SubSeq(seqLog, MinOf(SeqIdx(sq)), Len(seqLog))
+            /\ UNCHANGED appQ
   /\ UNCHANGED << exvars, firstMs, closeMs, marked, peerGone, proto, lastQ >>
 
 TCloseBegin == /\ IsEvent("CloseBegin") /\ closeMs' = (IF closeMs < 0 THEN ev.ms ELSE closeMs)
-               /\ UNCHANGED << exvars, appQ, refreshed, firstMs, marked, peerGone, proto, lastQ >>
-TCloseEnd == IsEvent("CloseEnd") /\ closeMs >= 0 /\ UNCHANGED << exvars, appQ, refreshed, firstMs, closeMs, marked, peerGone, proto, lastQ >>
-TMark == IsEvent("Mark") /\ marked' = TRUE /\ UNCHANGED << exvars, appQ, refreshed, firstMs, closeMs, peerGone, proto, lastQ >>
-TPeerClose == IsEvent("PeerClose") /\ peerGone' = ev.ms /\ UNCHANGED << exvars, appQ, refreshed, firstMs, closeMs, marked, proto, lastQ >>
+               /\ UNCHANGED << exvars, appQ, refreshed, firstMs, marked, peerGone, proto, lastQ, seqLog >>
+TCloseEnd == IsEvent("CloseEnd") /\ closeMs >= 0 /\ UNCHANGED << exvars, appQ, refreshed, firstMs, closeMs, marked, peerGone, proto, lastQ, seqLog >>
+TMark == IsEvent("Mark") /\ marked' = TRUE /\ UNCHANGED << exvars, appQ, refreshed, firstMs, closeMs, peerGone, proto, lastQ, seqLog >>
+TPeerClose == IsEvent("PeerClose") /\ peerGone' = ev.ms /\ UNCHANGED << exvars, appQ, refreshed, firstMs, closeMs, marked, proto, lastQ, seqLog >>
 
 \* end of run: everything written was seen, and every template was refreshed each interval (one round of slack)
 TEnd ==
@@ -85,7 +95,7 @@ TEnd ==
                       /\ \A tid \in DOMAIN firstMs :
                            (IF tid \in DOMAIN refreshed THEN refreshed[tid] ELSE 0) >= ((closeMs - firstMs[tid]) \div RefreshMs) - 1
   /\ ev.leaked = 0                                                       \* no goroutine of the exporter is left
-  /\ UNCHANGED << exvars, appQ, refreshed, firstMs, closeMs, marked, peerGone, proto, lastQ >>
+  /\ UNCHANGED << exvars, appQ, refreshed, firstMs, closeMs, marked, peerGone, proto, lastQ, seqLog >>
 
 Next == TReset \/ TSendBegin \/ TSendEnd \/ TRecv \/ TCloseBegin \/ TCloseEnd \/ TMark \/ TPeerClose \/ TEnd
 Spec == Init /\ [][Next]_vars
